@@ -625,3 +625,693 @@ func ruleM10(s *c13) {
 		c.Pass("M10", "no-key-collection-loop", 0, "no loop over a decoded map collects its keys in the output writers")
 	}
 }
+
+// T10 / N8 (C07, C17): a struct is checked member by member.  Assignability "holds for structs
+// exactly when it holds for their components": every implementation of Type.IsAssignableFrom
+// that walks StructType.Members must, in every iteration, either apply the relation to
+// that member, record a failure, or have found the two members' TypeIds equal.  An iteration that
+// completes in any other way has accepted a member unchecked: a memo keyed on the member type's
+// base name (dimensions dropped) let `struct(int a, int[] b)` pass as map<int>.
+func ruleMembersAll(c *an.Ctx, rule string) {
+	p := c.P
+	members := p.Field(pkgSyntax, "StructType", "Members")
+	if members == nil {
+		return
+	}
+	isRelName := func(n string) bool { return n == "IsAssignableFrom" || n == "CheckEqual" }
+	relCall := func(in ssa.Instruction) bool {
+		cl := an.AsCallAny(in)
+		if cl == nil {
+			return false
+		}
+		if cl.Common().IsInvoke() {
+			return isRelName(cl.Common().Method.Name())
+		}
+		f := cl.Common().StaticCallee()
+		return f != nil && isRelName(f.Name())
+	}
+	n := 0
+	var roots []*ssa.Function
+	// CheckEqual compares the components of the two TypeIds one by one and is not covered
+	roots = append(roots, typeImpls(c, "IsAssignableFrom")...)
+	seenFn := map[*ssa.Function]bool{}
+	for _, root := range roots {
+		fam := familyOfShared(p, root, roots, 2)
+		inFam := map[*ssa.Function]bool{}
+		for _, m := range fam {
+			inFam[m] = true
+		}
+		for _, m := range fam {
+			if seenFn[m] {
+				continue
+			}
+			seenFn[m] = true
+			for hd, body := range naturalLoops(m) {
+				overMembers := false
+				for b := range body {
+					for _, in := range b.Instrs {
+						switch x := in.(type) {
+						case *ssa.Next:
+							if rg, ok := x.Iter.(*ssa.Range); ok && an.LoadsField(rg.X, members) {
+								overMembers = true
+							}
+						case *ssa.IndexAddr:
+							// element of Members indexed by this loop's counter (defined in the header block)
+							if an.LoadsField(x.X, members) {
+								if def, ok := x.Index.(ssa.Instruction); ok && def.Block() == hd {
+									overMembers = true
+								}
+							}
+						}
+					}
+				}
+				if !overMembers {
+					continue
+				}
+				conform := func(in ssa.Instruction) bool {
+					if relCall(in) {
+						return true
+					}
+					if v, ok := in.(ssa.Value); ok {
+						if args, isApp := an.IsBuiltinCall(v, "append"); isApp && len(args) > 0 {
+							if nm, ok := args[0].Type().(*types.Named); ok && nm.Obj().Name() == "ErrorList" {
+								return true // a failure is recorded
+							}
+						}
+					}
+					if cl := an.AsCallAny(in); cl != nil {
+						if h := cl.Common().StaticCallee(); h != nil && h.Blocks != nil && h != m && (inFam[h] || h.Pkg == m.Pkg && h.Signature.Recv() == nil) {
+							return an.MayDo(h, relCall, 2)
+						}
+					}
+					return false
+				}
+				typeIdsEqual := func(from, to *ssa.BasicBlock) bool {
+					return an.EdgeHolds(from, to, func(r an.Rel) bool {
+						if r.Op != token.EQL || r.X == nil || r.Y == nil {
+							return false
+						}
+						nx, ok1 := r.X.Type().(*types.Named)
+						ny, ok2 := r.Y.Type().(*types.Named)
+						return ok1 && ok2 && nx.Obj().Name() == "TypeId" && ny.Obj().Name() == "TypeId"
+					})
+				}
+				for _, sc := range hd.Succs {
+					if !body[sc] {
+						continue
+					}
+					n++
+					first := sc.Instrs[0]
+					var w *an.Witness
+					if !conform(first) {
+						w = an.Query{Fn: m, After: first, Target: func(x ssa.Instruction) bool { return x == hd.Instrs[0] }, Barrier: conform,
+							BarrierEdge: func(from, to *ssa.BasicBlock) bool { return !body[to] || typeIdsEqual(from, to) }}.Find()
+					}
+					c.Check(rule, "every-struct-member-is-checked@"+an.FnName(m), hd.Instrs[0].Pos(), w == nil,
+						"an iteration over a struct's members completes without applying the type relation to the member, recording a failure or finding the two members' types identical: that member is accepted unchecked (a struct with members of different array/map depth is accepted where every member must have the map's element type); "+c.WitnessString(w))
+				}
+			}
+		}
+	}
+	c.Floor(rule, "loops over StructType.Members in the type relations", n, 2)
+}
+
+// X8 / R10 (C03, C05): every creator of a fork's chunk objects names their directories alike.
+// doChunks creates the chunks when the split has finished; updateId re-creates them from
+// _stage_defs when mrp re-attaches.  The directory name chnk<i> is padded to a width computed from
+// the chunk list; if the two places compute it from different quantities (the count in one, the
+// largest index in the other) they agree except at 10, 100, 1000 chunks, where the restarted mrp
+// looks for chnk0..chnk9, finds nothing, and runs every completed chunk again.
+// Rule: all calls of NewChunk in package core pass a width obtained from util.WidthForInt applied
+// to the same expression shape.
+func ruleChunkWidth(c *an.Ctx, rule string) {
+	p := c.P
+	nc := p.Func(pkgCore, "NewChunk")
+	if nc == nil {
+		c.Info(rule, "anchor(NewChunk)", 0, "not found: not decided")
+		return
+	}
+	type site struct {
+		in    ssa.Instruction
+		shape string
+		fn    string
+	}
+	var sites []site
+	for _, fn := range coreFns(c) {
+		for _, cs := range callsTo(fn, nc) {
+			args := cs.Common().Args
+			if len(args) < 4 {
+				continue
+			}
+			shape := "?"
+			if wc, ok := an.Strip(args[3]).(*ssa.Call); ok && wc.Call.StaticCallee() != nil && wc.Call.StaticCallee().Name() == "WidthForInt" && len(wc.Call.Args) == 1 {
+				shape = "WidthForInt(" + an.StablePath(wc.Call.Args[0]) + ")"
+			} else {
+				shape = an.StablePath(args[3])
+			}
+			sites = append(sites, site{cs.(ssa.Instruction), shape, an.FnName(fn)})
+		}
+	}
+	if len(sites) < 2 {
+		c.Pass(rule, "chunk-directory-width-agrees", nc.Pos(), "chunks are created in one place only")
+		return
+	}
+	ref := sites[0]
+	for _, s := range sites {
+		// the reference is the site in doChunks (the run that created the directories)
+		if s.fn == "(*Fork).doChunks" || strings.Contains(s.fn, "doChunks") {
+			ref = s
+		}
+	}
+	for _, s := range sites {
+		if s.in == ref.in {
+			continue
+		}
+		c.Check(rule, "chunk-directory-width-agrees("+s.fn+" vs "+ref.fn+")", s.in.Pos(), s.shape == ref.shape,
+			"two creators of a fork's chunks pad the chunk directory name to widths computed differently ("+s.shape+" vs "+ref.shape+"): where the two disagree (10, 100, ... chunks) a restarted mrp looks for differently named chunk directories, finds none of the completed chunks and runs them all again")
+	}
+}
+
+// O2b (C02): a remembered position in the chunk list is forgotten with the list.  "Every chunk job
+// finishes before the join job starts" rests on Fork.getState looking at every chunk.  A scan that
+// starts at a position remembered in a field of the fork (skipping chunks already seen complete)
+// is only sound if that field is cleared wherever Fork.chunks is replaced - a full stage reset or
+// a re-run split builds a new list whose leading chunks have not run.
+// Rule: if a loop over Fork.chunks in the family of Fork.getState starts at a value loaded from a
+// field of Fork, every function of package core that stores Fork.chunks also stores that field.
+func ruleO2b(c *an.Ctx) {
+	p := c.P
+	gs := c.NeedFunc(pkgCore, "(*Fork).getState")
+	chunks := p.Field(pkgCore, "Fork", "chunks")
+	if gs == nil || chunks == nil {
+		return
+	}
+	n, remembered := 0, 0
+	for _, m := range familyOf(p, gs, 2) {
+		for hd, body := range naturalLoops(m) {
+			// an element of Fork.chunks indexed inside the loop
+			var idx ssa.Value
+			for b := range body {
+				for _, in := range b.Instrs {
+					if ia, ok := in.(*ssa.IndexAddr); ok && an.LoadsField(ia.X, chunks) {
+						idx = ia.Index
+					}
+				}
+			}
+			if idx == nil {
+				continue
+			}
+			n++
+			// the counter: a phi in the header (idx itself or idx = phi + 1)
+			var phi *ssa.Phi
+			switch x := idx.(type) {
+			case *ssa.Phi:
+				phi = x
+			case *ssa.BinOp:
+				if ph, ok := x.X.(*ssa.Phi); ok {
+					phi = ph
+				}
+			}
+			if phi == nil || phi.Block() != hd {
+				continue
+			}
+			for i, pred := range hd.Preds {
+				if body[pred] {
+					continue
+				}
+				start := phi.Edges[i]
+				if _, isC := start.(*ssa.Const); isC {
+					continue
+				}
+				// where does the start come from?
+				var fld *types.Var
+				seen := map[ssa.Value]bool{}
+				var rec func(v ssa.Value, d int)
+				rec = func(v ssa.Value, d int) {
+					if v == nil || seen[v] || d > 5 || fld != nil {
+						return
+					}
+					seen[v] = true
+					if _, f := an.FieldLoad(an.Strip(v)); f != nil {
+						if strings.HasSuffix(an.Path(v), "."+f.Name()) && f != chunks {
+							fld = f
+							return
+						}
+					}
+					switch x := v.(type) {
+					case *ssa.BinOp:
+						rec(x.X, d+1)
+						rec(x.Y, d+1)
+					case *ssa.Phi:
+						for _, e := range x.Edges {
+							rec(e, d+1)
+						}
+					case *ssa.Call:
+						for _, a := range x.Call.Args {
+							rec(a, d+1)
+						}
+					}
+				}
+				rec(start, 0)
+				if fld == nil {
+					continue
+				}
+				remembered++
+				for _, fn := range coreFns(c) {
+					sts := an.StoresToField(fn, chunks)
+					if len(sts) == 0 {
+						continue
+					}
+					clears := len(an.StoresToField(fn, fld)) > 0
+					c.Check("O2b", "remembered-scan-position-cleared-with-the-list("+fld.Name()+")@"+an.FnName(fn), sts[0].Pos(), clears,
+						"Fork.getState starts its scan of the chunk list at the position remembered in Fork."+fld.Name()+", but this function replaces Fork.chunks without resetting it: the leading chunks of the new list are never looked at, the fork reports chunks_complete while they are still running and the join is submitted")
+				}
+			}
+		}
+	}
+	if remembered == 0 {
+		c.Pass("O2b", "chunk-scan-starts-at-the-beginning@(*Fork).getState", gs.Pos(), "no scan of Fork.chunks starts at a remembered position")
+	}
+	c.Floor("O2b", "loops over Fork.chunks in the state function", n, 1)
+}
+
+// R7b / F13 (C05, C06): an orphaned local node found at re-attach is reset.  "Once the fault is
+// removed, restarting re-executes only the failed work and completes": a node whose state is
+// Running when mrp re-attaches may hide a fork that already failed (Node.getState stops at the
+// first fork that is not complete); Pipestance.Reset only resets nodes whose state is Failed, so
+// the reset in RestartRunningNodes is what clears that fork's _errors.
+// Rule: in RestartRunningNodes, after the edge on which a frontier node's state is Running, every
+// path to the next iteration passes Node.reset, except on the edge where the node is not local
+// (cluster jobs are re-attached instead).
+func ruleOrphanReset(c *an.Ctx, rule string) {
+	p := c.P
+	fn := c.NeedFunc(pkgCore, "(*Pipestance).RestartRunningNodes")
+	reset := p.Func(pkgCore, "(*Node).reset")
+	state := p.Field(pkgCore, "Node", "state")
+	local := p.Field(pkgCore, "Node", "local")
+	if fn == nil || reset == nil || state == nil || local == nil {
+		return
+	}
+	resetter := &an.MustDo{Pred: func(x ssa.Instruction) bool { return an.CalleeIs(x, reset) }, Depth: 1}
+	isReset := func(x ssa.Instruction) bool {
+		if an.CalleeIs(x, reset) {
+			return true
+		}
+		if cl := an.AsCallAny(x); cl != nil {
+			if h := cl.Common().StaticCallee(); h != nil && h.Blocks != nil && h.Pkg == fn.Pkg && h != reset {
+				return resetter.Fn(h)
+			}
+		}
+		return false
+	}
+	notLocal := func(from, to *ssa.BasicBlock) bool {
+		return an.EdgeHolds(from, to, func(r an.Rel) bool {
+			return r.Op == token.ILLEGAL && !r.Truth && an.LoadsField(r.X, local)
+		})
+	}
+	n := 0
+	for _, m := range familyOf(p, fn, 1) {
+		loops := naturalLoops(m)
+		for _, b := range m.Blocks {
+			for _, s := range b.Succs {
+				if !an.EdgeHolds(b, s, func(r an.Rel) bool {
+					return relEq(r, func(v ssa.Value) bool { return an.LoadsField(v, state) }, func(v ssa.Value) bool { return isState(p, v, "Running") })
+				}) {
+					continue
+				}
+				var hd *ssa.BasicBlock
+				for h, body := range loops {
+					if body[b] && (hd == nil || len(body) < len(loops[hd])) {
+						hd = h
+					}
+				}
+				// only the test that is followed by a reset within the same iteration
+				if !findFrom(s, isReset, func(x ssa.Instruction) bool { return hd != nil && x == hd.Instrs[0] }, nil) {
+					continue
+				}
+				n++
+				bad := findFrom(s, func(x ssa.Instruction) bool {
+					if an.IsReturn(x) {
+						return true
+					}
+					return hd != nil && x == hd.Instrs[0]
+				}, isReset, notLocal)
+				c.Check(rule, "orphaned-local-node-is-reset@"+an.FnName(m), s.Instrs[0].Pos(), !bad,
+					"a frontier node found Running at re-attach can reach the next node without Node.reset although it is local: a fork of it that had already failed keeps its _errors (Pipestance.Reset only looks at nodes whose state is Failed), the failed job is never run again and the restarted pipestance fails with the stale error")
+			}
+		}
+	}
+	c.Floor(rule, "Running-state tests followed by a reset in RestartRunningNodes", n, 1)
+}
+
+// N9 (C17): what was filtered is what is handed on.  At a stage boundary a value is narrowed to the
+// destination type with Type.FilterJson (undeclared struct fields dropped, integral floats written
+// as integers); the result - not the producer's raw bytes - is the argument the consumer receives.
+// FilterJson reports non-fatal problems (an int given as 2.0) together with a corrected value.
+// Rule: in package core, no return reachable after a FilterJson call hands back that call's input.
+func ruleN9(c *an.Ctx) {
+	n := 0
+	for _, fn := range coreFns(c) {
+		for _, g := range an.WithAnon(fn) {
+			an.Instrs(g, func(in ssa.Instruction) {
+				cl, ok := in.(*ssa.Call)
+				if !ok || !cl.Call.IsInvoke() || cl.Call.Method.Name() != "FilterJson" || len(cl.Call.Args) < 1 {
+					return
+				}
+				input := an.Strip(cl.Call.Args[0])
+				n++
+				var bad *ssa.Return
+				an.Instrs(g, func(x ssa.Instruction) {
+					ret, ok := x.(*ssa.Return)
+					if !ok || bad != nil || len(ret.Results) == 0 {
+						return
+					}
+					if an.Strip(an.RetVal(ret, 0)) != input {
+						return
+					}
+					if an.Reachable(g, in, func(y ssa.Instruction) bool { return y == x }) {
+						bad = ret
+					}
+				})
+				pos := in.Pos()
+				if bad != nil {
+					pos = bad.Pos()
+				}
+				c.Check("N9", "filtered-value-is-what-is-returned("+an.Path(input)+")@"+an.FnName(fn), pos, bad == nil,
+					"after filtering a value to the destination type a return hands back the unfiltered input: the consumer receives the producer's raw JSON (undeclared struct fields, 2.0 for an int), which no longer validates against the declared type")
+			})
+		}
+	}
+	c.Floor("N9", "FilterJson calls at stage boundaries (package core)", n, 1)
+}
+
+// S10 (C15): only a lock holder, or the function about to take the lock, rescans the pipestance's
+// own metadata directory.  Pipestance.readOnly() is "this object does not see a _lock file"; an
+// inspector stays read-only precisely because nothing loads its pipestance-level metadata cache.
+// A rescan in a function that read-only pipestances call makes the live writer's _lock visible,
+// readOnly() turns false, and the inspector starts stepping nodes and writing metadata.
+// Rule: every loadCache() on Pipestance.metadata is in Pipestance.Lock (or a helper only it calls),
+// or behind an edge on which readOnly() is false - in the function or at every call of it.
+var s10Exceptions = map[string]string{
+	"(*Pipestance).Immortalize": "guarded by `!force && readOnly()`: the force parameter is an explicit, documented override; no caller in the repository passes true",
+}
+
+func ruleS10(c *an.Ctx) {
+	p := c.P
+	md := p.Field(pkgCore, "Pipestance", "metadata")
+	ro := p.Func(pkgCore, "(*Pipestance).readOnly")
+	lock := p.Func(pkgCore, "(*Pipestance).Lock")
+	if md == nil || ro == nil || lock == nil {
+		c.Info("S10", "anchor(Pipestance.metadata/readOnly/Lock)", 0, "not found: not decided")
+		return
+	}
+	holds := func(r an.Rel) bool {
+		if r.Op != token.ILLEGAL || r.Truth {
+			return false
+		}
+		if cl, ok := r.X.(*ssa.Call); ok && cl.Call.StaticCallee() == ro {
+			return true
+		}
+		// the attach entry points carry the mode as a parameter (the lock is taken iff !readOnly)
+		prm := an.ParamOf(r.X)
+		return prm != nil && prm.Name() == "readOnly"
+	}
+	n := 0
+	for _, fn := range coreFns(c) {
+		an.Instrs(fn, func(in ssa.Instruction) {
+			cl := an.AsCall(in)
+			if cl == nil || cl.Common().StaticCallee() == nil || cl.Common().StaticCallee().Name() != "loadCache" || len(cl.Common().Args) < 1 {
+				return
+			}
+			if !an.LoadsField(cl.Common().Args[0], md) {
+				return
+			}
+			n++
+			key := "pipestance-cache-loaded-only-by-lock-holder@" + an.FnName(fn)
+			if why, ok := s10Exceptions[an.FnName(fn)]; ok {
+				c.Pass("S10", key, in.Pos(), "tabled exception: "+why)
+				return
+			}
+			ok := fn == lock
+			if !ok {
+				callers := effectiveCallers(p, fn, []string{"(*Pipestance).Lock"})
+				ok = len(callers) == 1 && callers[0] == "(*Pipestance).Lock"
+			}
+			if !ok {
+				g, _ := an.GuardedBy(in, holds)
+				ok = g || guardedAtAllCalls(p, fn, holds, 0)
+			}
+			c.Check("S10", key, in.Pos(), ok,
+				"the pipestance-level metadata cache is reloaded in a function that a read-only pipestance can run: the reload makes the live writer's _lock visible, readOnly() turns false for the inspector, and it starts resetting, stepping and writing in a pipestance another mrp holds locked")
+		})
+	}
+	c.Floor("S10", "reloads of the pipestance-level metadata cache", n, 2)
+}
+
+// W7 (C14): the symlink check looks at every ancestor.  VDR refuses a node when its directory or
+// one of its ancestors' is a symlink ("nothing outside the pipestance directory is touched").
+// Rule: Node.vdrCheckSymlink either calls itself on a receiver reached through Node.parent, or
+// walks the parents in a loop and stats a path that depends on the loop's node; a walk whose
+// os.Lstat argument does not change from one ancestor to the next examines the node's own
+// directory over and over and never sees a symlinked sub-pipeline directory.
+func ruleW7(c *an.Ctx) {
+	p := c.P
+	fn := p.Func(pkgCore, "(*Node).vdrCheckSymlink")
+	parent := p.Field(pkgCore, "Node", "parent")
+	if fn == nil || parent == nil {
+		c.Info("W7", "anchor((*Node).vdrCheckSymlink)", 0, "not found: not decided")
+		return
+	}
+	recursive := false
+	for _, cs := range callsTo(fn, fn) {
+		args := cs.Common().Args
+		if len(args) > 0 && strings.Contains(an.Path(args[0]), ".parent") {
+			recursive = true
+		}
+	}
+	var lstats []*ssa.Call
+	an.Instrs(fn, func(in ssa.Instruction) {
+		if cl, ok := in.(*ssa.Call); ok {
+			if f := cl.Call.StaticCallee(); f != nil && f.Pkg != nil && f.Pkg.Pkg.Path() == "os" && (f.Name() == "Lstat" || f.Name() == "Readlink") {
+				lstats = append(lstats, cl)
+			}
+		}
+	})
+	c.Floor("W7", "os.Lstat in the symlink check", len(lstats), 1)
+	if recursive {
+		c.Pass("W7", "symlink-check-reaches-the-ancestors@(*Node).vdrCheckSymlink", fn.Pos(), "the check calls itself on the parent node")
+		return
+	}
+	loops := naturalLoops(fn)
+	ok := false
+	detail := "the check neither calls itself on the parent nor walks the parents in a loop: only the node's own directory is examined"
+	for _, cl := range lstats {
+		for hd, body := range loops {
+			if !body[cl.Block()] {
+				continue
+			}
+			// does the argument depend on a phi of this loop's header?
+			dep := false
+			seen := map[ssa.Value]bool{}
+			var rec func(v ssa.Value, d int)
+			rec = func(v ssa.Value, d int) {
+				if v == nil || seen[v] || d > 8 || dep {
+					return
+				}
+				seen[v] = true
+				if ph, isPhi := v.(*ssa.Phi); isPhi && ph.Block() == hd {
+					dep = true
+					return
+				}
+				if in, isI := v.(ssa.Instruction); isI {
+					for _, op := range in.Operands(nil) {
+						if op != nil && *op != nil {
+							rec(*op, d+1)
+						}
+					}
+				}
+			}
+			rec(cl.Call.Args[0], 0)
+			if dep {
+				ok = true
+			} else {
+				detail = "the parents are walked in a loop, but the path handed to os.Lstat (" + an.Path(cl.Call.Args[0]) + ") does not depend on the loop's node: the node's own directory is examined once per ancestor and a symlinked ancestor directory is never noticed, so VDR follows it out of the pipestance directory"
+			}
+		}
+	}
+	c.Check("W7", "symlink-check-reaches-the-ancestors@(*Node).vdrCheckSymlink", fn.Pos(), ok, detail)
+}
+
+// G11 (C19): every file's top-level call is looked at.  `mro edit` is given several files; each is
+// its own AST and may end in a `call NAME(...)` statement that refers to the renamed callable or
+// supplies the renamed input.  The refactorings that touch the top-level call loop over the ASTs;
+// Rule: in each function of package refactoring that loops over a slice of ASTs and reads
+// Ast.Call inside that loop, every iteration reads it - the fix-up must not sit behind a condition
+// that holds for some files only (such as "first file that declares the callable").
+func ruleG11(c *an.Ctx) {
+	p := c.P
+	callF := p.Field(pkgSyntax, "Ast", "Call")
+	if callF == nil {
+		return
+	}
+	readsCall := func(in ssa.Instruction) bool {
+		u, ok := in.(*ssa.UnOp)
+		if !ok || u.Op != token.MUL {
+			return false
+		}
+		_, f := an.FieldOfAddr(u.X)
+		return f == callF
+	}
+	n := 0
+	for _, fn := range p.FuncsOf(pkgRefac) {
+		if fn.Parent() != nil {
+			continue
+		}
+		for hd, body := range naturalLoops(fn) {
+			// a loop over a []*syntax.Ast
+			overAsts := false
+			for b := range body {
+				for _, in := range b.Instrs {
+					if ia, ok := in.(*ssa.IndexAddr); ok {
+						if def, isI := ia.Index.(ssa.Instruction); isI && def.Block() == hd {
+							if strings.HasSuffix(ia.X.Type().String(), "[]*"+an.ModPath+pkgSyntax+".Ast") {
+								overAsts = true
+							}
+						}
+					}
+				}
+			}
+			if !overAsts {
+				continue
+			}
+			reads := false
+			for b := range body {
+				for _, in := range b.Instrs {
+					if readsCall(in) {
+						reads = true
+					}
+				}
+			}
+			if !reads {
+				continue
+			}
+			barrier := func(in ssa.Instruction) bool {
+				if readsCall(in) {
+					return true
+				}
+				if cl := an.AsCallAny(in); cl != nil {
+					if h := cl.Common().StaticCallee(); h != nil && h.Blocks != nil && h.Pkg == fn.Pkg {
+						md := &an.MustDo{Pred: readsCall, Depth: 1}
+						return md.Fn(h)
+					}
+				}
+				return false
+			}
+			for _, sc := range hd.Succs {
+				if !body[sc] {
+					continue
+				}
+				n++
+				first := sc.Instrs[0]
+				var w *an.Witness
+				if !barrier(first) {
+					// a file that does not declare the callable at all is skipped as a whole
+					notDeclaredHere := func(from, to *ssa.BasicBlock) bool {
+						return an.EdgeHolds(from, to, func(r an.Rel) bool {
+							if r.Op == token.EQL && an.IsNil(r.Y) {
+								if lk, ok := an.Strip(r.X).(*ssa.Lookup); ok {
+									if _, f := an.FieldLoad(lk.X); f != nil && f.Name() == "Table" {
+										return true
+									}
+								}
+							}
+							if r.Op == token.NEQ {
+								_, fx := an.FieldLoad(an.Strip(r.X))
+								_, fy := an.FieldLoad(an.Strip(r.Y))
+								return fx != nil && fy != nil && fx == fy && fx.Name() == "FullPath"
+							}
+							return false
+						})
+					}
+					w = an.Query{Fn: fn, After: first, Target: func(x ssa.Instruction) bool { return x == hd.Instrs[0] }, Barrier: barrier,
+						BarrierEdge: func(from, to *ssa.BasicBlock) bool { return !body[to] || notDeclaredHere(from, to) }}.Find()
+				}
+				c.Check("G11", "every-files-top-level-call-examined@"+an.FnName(fn), hd.Instrs[0].Pos(), w == nil,
+					"the loop over the given files adjusts the top-level `call` statement, but an iteration can finish without looking at that file's Ast.Call: a file whose call refers to the renamed callable (or supplies the renamed input) keeps the old name when the fix-up only runs for, say, the first file declaring the callable, and the edited files no longer compile; "+c.WitnessString(w))
+			}
+		}
+	}
+	c.Floor("G11", "loops over the ASTs that touch the top-level call", n, 2)
+}
+
+// I7 (C16): the file recorded with a call is the file that declares the callable.  The invocation
+// data names the MRO file to include (`mro_file`); converting the data back to a call parses that
+// one file - it does not follow its includes - and looks the callable up in it.
+// Rule: the value stored into InvocationData.Include by BuildDataForAst does not depend on
+// SourceFile.IncludedFrom (the chain of files through which the declaring file was reached): any
+// file further up that chain does not itself declare the callable.
+func ruleI7(c *an.Ctx) {
+	p := c.P
+	fn := c.NeedFunc(pkgCore, "BuildDataForAst")
+	inc := p.Field(pkgCore, "InvocationData", "Include")
+	from := p.Field(pkgSyntax, "SourceFile", "IncludedFrom")
+	if fn == nil || inc == nil || from == nil {
+		c.Info("I7", "anchor(BuildDataForAst/InvocationData.Include/SourceFile.IncludedFrom)", 0, "not found: not decided")
+		return
+	}
+	n := 0
+	for _, st := range an.StoresToField(fn, inc) {
+		n++
+		seen := map[ssa.Value]bool{}
+		var bad ssa.Instruction
+		var rec func(v ssa.Value, d int)
+		rec = func(v ssa.Value, d int) {
+			if v == nil || seen[v] || d > 14 || bad != nil {
+				return
+			}
+			seen[v] = true
+			if fa, ok := v.(*ssa.FieldAddr); ok {
+				if _, f := an.FieldOfAddr(fa); f == from {
+					bad = fa
+					return
+				}
+			}
+			if cl, ok := v.(*ssa.Call); ok {
+				if h := cl.Call.StaticCallee(); h != nil && h.Blocks != nil && strings.HasPrefix(fnPkgPath(h), an.ModPath) {
+					an.Instrs(h, func(x ssa.Instruction) {
+						if ret, ok := x.(*ssa.Return); ok {
+							for _, r := range ret.Results {
+								rec(r, d+1)
+							}
+						}
+					})
+				}
+			}
+			if in, ok := v.(ssa.Instruction); ok {
+				for _, op := range in.Operands(nil) {
+					if op != nil && *op != nil {
+						rec(*op, d+1)
+					}
+				}
+			}
+		}
+		rec(st.Val, 0)
+		pos := st.Pos()
+		if bad != nil {
+			pos = bad.Pos()
+		}
+		c.Check("I7", "recorded-include-is-the-declaring-file@BuildDataForAst", pos, bad == nil,
+			"the include recorded in the invocation data is derived from SourceFile.IncludedFrom: a file further up the include chain does not declare the callable itself, and converting the data back to a call (which parses only that file) fails with `not a declared pipeline or stage`")
+	}
+	c.Floor("I7", "stores of InvocationData.Include in BuildDataForAst", n, 1)
+}
+
+func fnPkgPath(f *ssa.Function) string {
+	if f.Pkg != nil {
+		return f.Pkg.Pkg.Path()
+	}
+	if o := f.Origin(); o != nil && o.Pkg != nil {
+		return o.Pkg.Pkg.Path()
+	}
+	return ""
+}
